@@ -262,6 +262,26 @@ def parse_cli_diags(err):
     return out
 
 
+def parse_cli_sections(err):
+    """Parses codespan output into [(code, message, [(file, line, col), ...])]: one entry per diagnostic with every
+    file section codespan drew for it (a diagnostic whose labels lie in several files has several)."""
+    out = []
+    cur = None
+    for line in err.splitlines():
+        m = DIAG_HEAD.match(line)
+        if m:
+            if cur:
+                out.append(tuple(cur))
+            cur = [m.group(1), m.group(2), []]
+            continue
+        m = DIAG_LOC.match(line)
+        if m and cur:
+            cur[2].append((m.group(1), int(m.group(2)), int(m.group(3))))
+    if cur:
+        out.append(tuple(cur))
+    return out
+
+
 # --------------------------------------------------------------------------
 # sharding
 
